@@ -59,7 +59,13 @@ pub fn record_ops(cj: &Value, cj2: &Value, tr: &mut Tr) {
         let adv: usize = c.gates.iter().map(|g| g.num_basic_gates()).sum();
         json!({"c": circ_json(&b), "advertised": adv})
     }));
-    put(tr, "concat", guarded(|| json!({"rhs": cj2, "sum": circ_json(&(c.clone() + c2.clone())), "sum_ref": circ_json(&(&c + &c2))})));
+    // every overload of `+` and `+=`
+    put(tr, "concat", guarded(|| {
+        let mut acc = c.clone();
+        acc += &c2;
+        json!({"rhs": cj2, "sum": circ_json(&(c.clone() + c2.clone())), "sum_ref": circ_json(&(&c + &c2)),
+               "sum_ref_own": circ_json(&(&c + c2.clone())), "sum_own_ref": circ_json(&(c.clone() + &c2)), "sum_assign": circ_json(&acc)})
+    }));
     put(tr, "reverse2", guarded(|| {
         let mut r = c.clone();
         r.reverse();
